@@ -438,6 +438,25 @@ def gen_cases(rng, tier):
     for L in [2730, 2731] if quick else [2727, 2728, 2729, 2730, 2731, 2732, 2733]:
         r = gen_record(rng, 1, L=L, naux=1, ncig=1, name_len=5)
         cases.append(rt_case(rng, [gen_record(rng, 1), r, gen_record(rng, 1)], gen_refs(rng, 1), fam='size-seq'))
+    # runs of records above the 4 KiB inline buffer (each gets its own block; nothing of an earlier record may
+    # change when a later one is read): decreasing, equal, increasing sizes, long seq/qual/aux, small ones between
+    def long_rec(size, kind):
+        if kind == 'seq':
+            r = gen_record(rng, 2, L=rng.randint(2000, 2300), naux=1, ncig=2, name_len=8)
+            r['qual'] = [rng.randrange(256) for _ in range(r['L'])]
+        else:
+            r = gen_record(rng, 2, L=rng.choice([0, 31, 200]), naux=0, ncig=1, name_len=8)
+            r['aux'] = [gen_aux(rng, 'B', big=True), gen_aux(rng, 'Z', big=True), gen_aux(rng, 'i')]
+        assert pad_to(rng, r, size)
+        return r
+    runs = [[4700, 4400, 4200], [4400, 4400], [4200, 4400, 4700], [4097, 4097, 4097], [6000, 4200, 5000, 4100]]
+    for k, sizes in enumerate(runs if quick else runs * 4):
+        recs = [long_rec(sz, 'seq' if (k + i) % 2 else 'aux') for i, sz in enumerate(sizes)]
+        if k % 2:
+            recs.insert(1, gen_record(rng, 2))
+        cases.append(rt_case(rng, recs, gen_refs(rng, 2), wc=[1, 2], reads=[(1, 0), (2, 0), (1, 1), (2, 1), (2, 2)], fam='long-run'))
+        if quick and k >= 2:
+            cases[-1]['_nocoq'] = True   # judged by the oracle; the model is run on the first two in the quick tier
     # 4. above one BGZF block; many records straddling block boundaries; many CIGAR operations; large header
     big = gen_record(rng, 1, L=(44001 if quick else 90001), naux=2, ncig=2)
     cases.append(rt_case(rng, [gen_record(rng, 1), big, gen_record(rng, 1)], gen_refs(rng, 1), wc=[1, 4], reads=[(1, 0), (2, 2), (3, 1)], fam='big-record'))
@@ -947,7 +966,7 @@ def run(res, rng, tier):
                 res.corr_bad.append(dict(case=slim(strip(c)), obs=slim(o)))
             continue
         t = coq_term(c, o)
-        if len(t) > 150000 and tier == 'quick':
+        if (len(t) > 150000 or c.get('_nocoq')) and tier == 'quick':
             # judged by the oracle only; the model is run on cases of this size in the thorough tier
             res.count('coq-skipped-large')
             continue
@@ -990,7 +1009,7 @@ def run(res, rng, tier):
     res.extra['coq_chars'] = sum(len(t[2]) for t in terms)
     res.rule = ('round-trip cases: typed records (names 1..254 bytes, any flags/MAPQ, 0..12 CIGAR ops of types 0..15 with lengths up to 2^28-1, '
                 'sequences of zero/odd/even length over the 16 codes and through n16Table, qualities absent/present, every aux type incl. all B subtypes and empty arrays/strings, '
-                'block sizes 4094..4098 and >64 KiB, 16383/16384/16385/32768/40000/65535 CIGAR ops, 700 records across BGZF blocks, 70 KiB header), written at several wc/levels/flush placements and read back with rd 1..4 and the three Omit modes; '
+                'block sizes 4094..4098 and >64 KiB, runs of 2-4 records above 4 KiB (decreasing/equal/increasing sizes), 16383/16384/16385/32768/40000/65535 CIGAR ops, 700 records across BGZF blocks, 70 KiB header), written at several wc/levels/flush placements and read back with rd 1..4 and the three Omit modes; '
                 'single-record byte strings incl. malformed ones; nybble packing over all byte values. A case is distinct by its record contents; all are non-trivial.')
     pick = [x for x in zip(cases, obs) if x[0]['op'] == 'rt'][:2] + [x for x in zip(cases, obs) if x[0]['op'] == 'dec'][:1] + [x for x in zip(cases, obs) if x[0]['op'] == 'seq'][:1]
     res.samples = [dict(case=slim(strip(c), 40), observed=slim(o, 40)) for c, o in pick]
